@@ -4,7 +4,7 @@
    holds on a fragment that admits such mappings (C11E_roundtrip_eq, C11E_leaf).
    1. strings (unesc_esc, contains_esc, contains_esc_inv)   2. mappings (unescape_escape_map, pfs_escaped, C11E_arg)
    3.-4. what is written for a JSON value (wr) and what from_spec makes of it   5. leaves   6. trees
-   7. the fragment of C11 is included   8. examples   9. counterexamples (one FINDING). *)
+   7. the fragment of C11 is included   8. examples   9. the repaired finding D49; counterexamples. *)
 From Coq Require Import ZArith NArith List Bool String Ascii Lia.
 From Valida Require Import Py Lang Defs Cond Dsl Check DocSem Path Cast Str SpecDefs RuleDefs RuleTerms
   Spec SpecIO SpecSpell Eq Inst RunSpec.
@@ -220,8 +220,10 @@ Proof.
   rewrite E2. reflexivity.
 Qed.
 
-Theorem val_to_json_escaped cast d : has_path_key d = true -> val_to_json X cast (VDict d) = Ok (escape_map d).
-Proof. intros H. unfold val_to_json. rewrite H. reflexivity. Qed.
+(* (the values are written raw: they must be plain data at every depth) *)
+Theorem val_to_json_escaped cast d : has_path_key d = true -> forallb (fun kv => deep_plain (snd kv)) d = true ->
+  val_to_json X cast (VDict d) = Ok (escape_map d).
+Proof. intros H Hd. unfold val_to_json. rewrite H, Hd. reflexivity. Qed.
 
 Definition jp_ents := fix go (d : list (pyval * pyval)) : bool :=
   match d with [] => true | (VStr _, x) :: r => json_pure x && go r | _ => false end.
@@ -253,7 +255,7 @@ Theorem C11E_arg : forall d,
   val_to_json X false (VDict d) = Ok (escape_map d) /\ json_pure (escape_map d) = true /\
   exists cv, coerce pfs (escape_map d) = Ok cv /\ cval cv = ALit (VDict d).
 Proof.
-  intros d H Hj. split; [exact (val_to_json_escaped false d H)|].
+  intros d H Hj. split; [exact (val_to_json_escaped false d H (deep_plain_vals d Hj))|].
   split; [rewrite json_pure_escape_map; exact Hj|].
   destruct (coerce_escaped d H) as [E1 E2]. eexists. split; [exact E1|exact E2].
 Qed.
@@ -271,7 +273,11 @@ Definition wr (v : pyval) : pyval :=
   end.
 
 Lemma item_to_json_wr v : json_pure v = true -> item_to_json X false v = Ok (wr_item v).
-Proof. destruct v; try discriminate; reflexivity. Qed.
+Proof.
+  destruct v; try discriminate; try reflexivity; intros H.
+  - exact (item_to_json_list l H).
+  - exact (item_to_json_dict d H).
+Qed.
 
 Lemma mapM_item_wr l : forallb json_pure l = true -> mapM (item_to_json X false) l = Ok (map wr_item l).
 Proof.
@@ -291,7 +297,7 @@ Lemma val_to_json_wr v : json_pure v = true -> val_to_json X false v = Ok (wr v)
 Proof.
   destruct v; try discriminate; intros Hj; try reflexivity.
   - rewrite json_pure_list in Hj. unfold val_to_json. rewrite (mapM_item_wr l Hj). reflexivity.
-  - unfold val_to_json. cbn [wr]. destruct (has_path_key d); [reflexivity|].
+  - unfold val_to_json. cbn [wr]. destruct (has_path_key d); [rewrite (deep_plain_vals d Hj); reflexivity|].
     rewrite (mapM_kv_wr d (json_pure_dict_vals d Hj)). reflexivity.
 Qed.
 
@@ -379,17 +385,19 @@ Proof.
 Qed.
 
 (* values of a keyword mapping of a callable with several named parameters, and the arguments of a *args
-   callable: WRITTEN as arguments (mapping items of a list / mapping values of a mapping are escaped) but READ
-   by from_spec as items (it does not look into a list or into the values of a mapping there): the escaped
-   inner mappings are not un-escaped -- see C11E_counterexample_inner_escape.  So: no inner mapping with a
-   key containing "path". *)
+   callable: since the repair of D49 they are WRITTEN at item level (wr_item: a mapping is escaped at its own top
+   level, anything else -- a list, the values of a mapping -- is copied as it is), which is how from_spec READS
+   them (as items of the keyword mapping / of the argument list: it un-escapes a mapping there, but does not
+   look into a list or into the values of a mapping).  So the only restriction left is on the argument itself
+   when it is a mapping (escaped, or okkeys: D40); WIDENED from "no inner mapping with a key containing
+   path" -- see C11E_inner_escape_repaired.  The same predicate as item3. *)
+Definition sub3 (v : pyval) : bool := match v with VDict d => has_path_key d || okkeys d | _ => true end.
+
+Lemma sub3_item3 v : sub3 v = item3 v.
+Proof. reflexivity. Qed.
+
+(* (helper for section 7: values that the serialiser does not escape) *)
 Definition noesc (v : pyval) : bool := match v with VDict d => negb (has_path_key d) | _ => true end.
-Definition sub3 (v : pyval) : bool :=
-  match v with
-  | VDict d => has_path_key d || (okkeys d && forallb noesc (map snd d))
-  | VList l | VTuple l => forallb noesc l
-  | _ => true
-  end.
 
 Lemma wr_item_noesc v : noesc v = true -> wr_item v = v.
 Proof.
@@ -409,20 +417,11 @@ Proof.
   intros H. apply andb_true_iff in H as [Hv Hr]. rewrite (wr_item_noesc v Hv), (IH Hr). reflexivity.
 Qed.
 
-Lemma try_path_wr_sub v : sub3 v = true -> try_path pfs (wr v) = Ok (inr v).
-Proof.
-  destruct v; try (intros _; apply try_path_item2; reflexivity).
-  - cbn [sub3 wr]. intros H. rewrite (map_wr_item_noesc l H). apply try_path_item2. reflexivity.
-  - cbn [sub3 wr]. destruct (has_path_key d) eqn:E; cbn [orb]; intros H.
-    + unfold try_path. rewrite (pfs_escaped d E). reflexivity.
-    + apply andb_true_iff in H as [Hk Hv]. rewrite (wr_vals_noesc d Hv). apply try_path_item2. exact Hk.
-Qed.
+Lemma try_path_wr_sub v : sub3 v = true -> try_path pfs (wr_item v) = Ok (inr v).
+Proof. exact (try_path_wr_item v). Qed.
 
-Lemma coerce_items_sub l : forallb sub3 l = true -> coerce_items pfs (map wr l) = Ok (map inr l).
-Proof.
-  induction l as [|v l IH]; cbn [forallb coerce_items map]; [reflexivity|].
-  intros H. apply andb_true_iff in H as [Hv Hl]. rewrite (try_path_wr_sub v Hv), (IH Hl). reflexivity.
-Qed.
+Lemma coerce_items_sub l : forallb sub3 l = true -> coerce_items pfs (map wr_item l) = Ok (map inr l).
+Proof. exact (coerce_items_wr l). Qed.
 
 Definition kw_map (f : pyval -> pyval) (items : list (string * pyval)) : list (string * pyval) :=
   map (fun kv => (fst kv, f (snd kv))) items.
@@ -470,8 +469,8 @@ Definition q_json3 (q : dsl) : pyval :=
   | _ => match q_form q with
          | FZero => VNone
          | FOne v => wr v
-         | FKw items => kwd (kw_map wr items)
-         | FStar l => VList (map wr l)
+         | FKw items => kwd (kw_map wr_item items)      (* item level: since the repair of D49 *)
+         | FStar l => VList (map wr_item l)
          end
   end.
 Definition leaf_json3 (c : scls) (q : dsl) : pyval := VDict [(VStr (leaf_key c q), q_json3 q)].
@@ -485,22 +484,13 @@ Proof.
   intros Hl Hv. unfold args_json. cbn [Nat.eqb negb andb]. rewrite Hl, a2j_lit. exact (val_to_json_wr v Hv).
 Qed.
 
-Lemma kws_json_wr items : forallb json_pure (map snd items) = true ->
-  kws_json false (kmapL items) = Ok (map skv (kw_map wr items)).
-Proof.
-  unfold kw_map. induction items as [|[k v] r IH]; cbn [map snd forallb]; intros H; [reflexivity|].
-  apply andb_true_iff in H as [Hv Hr].
-  unfold kmap. cbn [map fst snd kws_json]. fold (kws_json false). fold (kmapL r).
-  rewrite a2j_lit, (val_to_json_wr v Hv). cbn [bind]. rewrite (IH Hr). reflexivity.
-Qed.
-
 Lemma kws_item_wr items : forallb json_pure (map snd items) = true ->
   kws_item false (kmapL items) = Ok (map skv (kw_map wr_item items)).
 Proof.
   unfold kw_map. induction items as [|[k v] r IH]; cbn [map snd forallb]; intros H; [reflexivity|].
   apply andb_true_iff in H as [Hv Hr].
-  unfold kmap. cbn [map fst snd kws_item arg1_raw]. fold (kws_item false). fold (kmapL r).
-  rewrite (item_to_json_wr v Hv). cbn [bind]. rewrite (IH Hr). reflexivity.
+  unfold kmap. cbn [map fst snd kws_item]. fold (kws_item false). fold (kmapL r).
+  rewrite a2i_lit, (item_to_json_wr v Hv). cbn [bind]. rewrite (IH Hr). reflexivity.
 Qed.
 
 Lemma kws_raw_lit items : kws_raw (kmapL items) = Ok (map skv items).
@@ -511,11 +501,11 @@ Qed.
 
 Lemma args_json_kw3 l items :
   l_kwargs l = kmapL items -> forallb json_pure (map snd items) = true ->
-  args_json (2, false, false)%nat false l = Ok (kwd (kw_map wr items)).
+  args_json (2, false, false)%nat false l = Ok (kwd (kw_map wr_item items)).
 Proof.
   intros Hl Hv. unfold kwd. change (fun kv : string * pyval => (VStr (fst kv), snd kv)) with skv.
   unfold args_json; cbn [Nat.eqb Nat.ltb Nat.leb negb andb orb]; rewrite Hl.
-  rewrite (kws_json_wr items Hv). reflexivity.
+  rewrite (kws_item_wr items Hv). reflexivity.
 Qed.
 
 Lemma args_json_items3 l items :
@@ -530,19 +520,19 @@ Proof.
   - rewrite (kws_item_wr items Hv). reflexivity.
 Qed.
 
-Lemma mapM_a2j_wr l : forallb json_pure l = true -> mapM (a2j false) (map ALit l) = Ok (map wr l).
+Lemma mapM_a2i_wr l : forallb json_pure l = true -> mapM (a2i false) (map ALit l) = Ok (map wr_item l).
 Proof.
   induction l as [|v l IH]; cbn [forallb mapM map]; [reflexivity|].
-  intros H. apply andb_true_iff in H as [Hv Hl]. rewrite a2j_lit, (val_to_json_wr v Hv). cbn [bind].
+  intros H. apply andb_true_iff in H as [Hv Hl]. rewrite a2i_lit, (item_to_json_wr v Hv). cbn [bind].
   rewrite (IH Hl). reflexivity.
 Qed.
 
 Lemma args_json_star3 l vs :
   l_args l = map ALit vs -> forallb json_pure vs = true ->
-  args_json (0, true, false)%nat false l = Ok (VList (map wr vs)).
+  args_json (0, true, false)%nat false l = Ok (VList (map wr_item vs)).
 Proof.
   intros Hl Hv. unfold args_json. cbn [Nat.eqb Nat.ltb Nat.leb negb andb orb].
-  rewrite Hl, (mapM_a2j_wr vs Hv). reflexivity.
+  rewrite Hl, (mapM_a2i_wr vs Hv). reflexivity.
 Qed.
 
 (* every leaf with JSON arguments is written (no fragment condition on the mappings) *)
@@ -584,8 +574,8 @@ Proof.
   destruct q; cbn [q_form form_args q_json3] in *;
     first [ reflexivity
           | cbn [forallb] in H; rewrite andb_true_r in H; exact (json_pure_wr _ H)
-          | exact (Hkw wr _ json_pure_wr H)
-          | rewrite json_pure_list; exact (forallb_map_pure wr _ json_pure_wr H)
+          | exact (Hkw wr_item _ json_pure_wr_item H)
+          | rewrite json_pure_list; exact (forallb_map_pure wr_item _ json_pure_wr_item H)
           | idtac ].
   destruct (items_have_path items).
   - rewrite json_pure_escape_map. change (VDict (map skv items)) with (kwd items). rewrite json_pure_kwd. exact H.
@@ -622,12 +612,12 @@ Qed.
 Lemma tail_star3 c q l :
   class_ok c q = true -> q_shape q = (0, true, false)%nat -> q_call q = (q_method q, l, []) ->
   forallb sub3 l = true ->
-  exists t, leaf_tail (scls_class c) (q_method q) (q_ctor c q) (VList (map wr l)) = Ok (t, leaf_result c q).
+  exists t, leaf_tail (scls_class c) (q_method q) (q_ctor c q) (VList (map wr_item l)) = Ok (t, leaf_result c q).
 Proof.
   intros Hcls Hs Hq Hpl. eexists.
-  assert (Hc : coerce pfs (VList (map wr l)) = Ok (CSeq false (map inr l)))
+  assert (Hc : coerce pfs (VList (map wr_item l)) = Ok (CSeq false (map inr l)))
     by (cbn [coerce]; rewrite (coerce_items_sub l Hpl); reflexivity).
-  apply (tail_ok c q (VList (map wr l)) _ l [] Hcls Hc).
+  apply (tail_ok c q (VList (map wr_item l)) _ l [] Hcls Hc).
   - rewrite Hs. cbn [dispatch_by Nat.eqb negb andb]. rewrite item_arg_inr. reflexivity.
   - pose proof (tie_build c q Hcls) as Hb. unfold built in Hb. rewrite Hq in Hb. exact Hb.
 Qed.
@@ -737,9 +727,8 @@ Lemma leaf_e_to_json c q : leaf_in_c11e c q = true -> l2j (lmapL (expected_leaf 
 Proof.
   unfold leaf_in_c11e, leaf_json_e. destruct (casts c q) eqn:Ec; intros H.
   - apply leaf_to_json_ok.
-    + destruct (leaf_in_c11_inv c q H) as [Hc _]. exact Hc.
     + exact (leaf_in_c11_nopath c q H).
-    + exact (leaf_args_ok c q H).
+    + exact (leaf_form_ok c q H).
   - destruct (leaf_esc_inv c q H) as [_ [_ [_ [Hj _]]]]. exact (leaf_to_json3 c q Ec Hj).
 Qed.
 
@@ -912,10 +901,7 @@ Proof.
 Qed.
 
 Lemma plain2_sub3 v : plain2 v = true -> sub3 v = true.
-Proof.
-  destruct v; try reflexivity; cbn [plain2 sub3]; try (apply forallb_impl; exact item2_noesc).
-  intros H. apply andb_true_iff in H as [Hk Hv]. rewrite Hk, (forallb_impl _ _ _ item2_noesc Hv). apply orb_true_r.
-Qed.
+Proof. intros H. exact (item2_item3 v (plain2_item2 v H)). Qed.
 
 Lemma plain2_wr v : plain2 v = true -> wr v = v.
 Proof.
@@ -956,16 +942,17 @@ Qed.
 Lemma q_json3_c11 q : q_plain2 q = true -> q_items_nopath q = true -> q_json3 q = form_val (q_form q).
 Proof.
   unfold q_plain2. rewrite q_args_form. intros Hp Hn.
-  assert (Hkw : forall items, forallb plain2 (map snd items) = true -> kw_map wr items = items).
-  { intros items H. apply kw_map_id. intros kv Hin. apply plain2_wr. exact (in_items_snd plain2 items kv H Hin). }
+  assert (Hwi : forall v, plain2 v = true -> wr_item v = v).
+  { intros v H. apply wr_item_noesc. apply item2_noesc. exact (plain2_item2 v H). }
+  assert (Hkw : forall items, forallb plain2 (map snd items) = true -> kw_map wr_item items = items).
+  { intros items H. apply kw_map_id. intros kv Hin. apply Hwi. exact (in_items_snd plain2 items kv H Hin). }
   destruct q; cbn [q_form form_args form_val q_json3 q_items_nopath] in *;
     first [ reflexivity
           | cbn [forallb] in Hp; rewrite andb_true_r in Hp; exact (plain2_wr _ Hp)
           | rewrite (Hkw _ Hp); reflexivity
-          | rewrite (map_id_on wr _ (fun x Hin => plain2_wr x (forallb_In plain2 _ x Hp Hin))); reflexivity
+          | rewrite (map_id_on wr_item _ (fun x Hin => Hwi x (forallb_In plain2 _ x Hp Hin))); reflexivity
           | idtac ].
-  rewrite (items_have_path_nopath items Hn). f_equal. apply kw_map_id. intros kv Hin.
-  apply wr_item_noesc. apply item2_noesc. apply plain2_item2. exact (in_items_snd plain2 items kv Hp Hin).
+  rewrite (items_have_path_nopath items Hn), (Hkw _ Hp). reflexivity.
 Qed.
 
 Theorem leaf_c11_in_c11e c q : leaf_in_c11 c q = true ->
@@ -1061,34 +1048,51 @@ Proof. vm_compute. repeat split. Qed.
 (* 9. outside the fragment: closed counterexamples                      *)
 (*    (components of `roundtrip`: JSON written, json_pure, rebuilt == original, JSON written again) *)
 
-(* (a) FINDING (also true of the Python implementation).  For callables with several named parameters
-   (in_range, not_in_range, equal_to_approx, keys_contain_*N_of) and for *args callables (keys_contain_any_of,
-   allowed_keys, ...), each argument is written by _arg_to_json_like AS AN ARGUMENT: mappings that are items of
-   a list argument or values of a mapping argument are escaped.  But from_spec reads those arguments as ITEMS
-   of the keyword mapping / of the argument list: it un-escapes a mapping there, but does not look into a list
-   or into the values of a mapping.  The inner mapping comes back with the escaped key, and is escaped once
-   more when written again.
+(* (a) REPAIRED finding D49 (it was C11E_counterexample_inner_escape).  For callables with several named
+   parameters (in_range, not_in_range, equal_to_approx, keys_contain_*N_of) and for *args callables
+   (keys_contain_any_of, allowed_keys, ...), each argument used to be written by _arg_to_json_like AS AN ARGUMENT
+   (mappings that are items of a list argument or values of a mapping argument were escaped) while from_spec reads
+   those arguments as ITEMS of the keyword mapping / of the argument list (it un-escapes a mapping there, but does
+   not look into a list or into the values of a mapping): the inner mapping came back with the escaped key, e.g.
    Python: Value.in_range(lower=[{"path": 1}], upper=3)
-           -> to_json_like() = {'value.in_range': {'lower': [{'\\path': 1}], 'upper': 3}}
-           -> from_json_like(...) has lower=[{'\\path': 1}]; != the original; written again with '\\\\path'.
-           Value.keys_contain_any_of([{"path": 1}]),  Value.in_range(lower={"a": {"path": 1}}, upper=3): the same. *)
-Example C11E_counterexample_inner_escape :
+           -> to_json_like() was {'value.in_range': {'lower': [{'\\path': 1}], 'upper': 3}}
+           -> from_json_like(...) had lower=[{'\\path': 1}]; != the original.
+   Now each such argument is written at item level (the inner mappings raw): the three inputs round-trip, and
+   they are in the (widened) fragment. *)
+Example C11E_inner_escape_repaired :
   roundtrip (L SValue (Q_in_range (VList [VDict [(VStr "path", VInt 1)]]) (VInt 3))) =
-    Ok (VDict [(VStr "value.in_range", VDict [(VStr "lower", VList [VDict [(VStr "\path", VInt 1)]]); (VStr "upper", VInt 3)])],
-        true, false,
-        VDict [(VStr "value.in_range", VDict [(VStr "lower", VList [VDict [(VStr "\\path", VInt 1)]]); (VStr "upper", VInt 3)])]) /\
+    Ok (VDict [(VStr "value.in_range", VDict [(VStr "lower", VList [VDict [(VStr "path", VInt 1)]]); (VStr "upper", VInt 3)])],
+        true, true,
+        VDict [(VStr "value.in_range", VDict [(VStr "lower", VList [VDict [(VStr "path", VInt 1)]]); (VStr "upper", VInt 3)])]) /\
   roundtrip (L SValue (Q_keys_contain_any_of [VList [VDict [(VStr "path", VInt 1)]]])) =
-    Ok (VDict [(VStr "value.keys_contain_any_of", VList [VList [VDict [(VStr "\path", VInt 1)]]])], true, false,
-        VDict [(VStr "value.keys_contain_any_of", VList [VList [VDict [(VStr "\\path", VInt 1)]]])]) /\
+    Ok (VDict [(VStr "value.keys_contain_any_of", VList [VList [VDict [(VStr "path", VInt 1)]]])], true, true,
+        VDict [(VStr "value.keys_contain_any_of", VList [VList [VDict [(VStr "path", VInt 1)]]])]) /\
   roundtrip (L SValue (Q_in_range (VDict [(VStr "a", VDict [(VStr "path", VInt 1)])]) (VInt 3))) =
-    Ok (VDict [(VStr "value.in_range", VDict [(VStr "lower", VDict [(VStr "a", VDict [(VStr "\path", VInt 1)])]); (VStr "upper", VInt 3)])],
-        true, false,
-        VDict [(VStr "value.in_range", VDict [(VStr "lower", VDict [(VStr "a", VDict [(VStr "\\path", VInt 1)])]); (VStr "upper", VInt 3)])]) /\
-  sub3 (VList [VDict [(VStr "path", VInt 1)]]) = false /\
-  sub3 (VDict [(VStr "a", VDict [(VStr "path", VInt 1)])]) = false /\
-  (* the same values as the single argument of a one-parameter callable are in the fragment *)
-  plain3 (VList [VDict [(VStr "path", VInt 1)]]) = true /\
-  plain3 (VDict [(VStr "a", VDict [(VStr "path", VInt 1)])]) = true.
+    Ok (VDict [(VStr "value.in_range", VDict [(VStr "lower", VDict [(VStr "a", VDict [(VStr "path", VInt 1)])]); (VStr "upper", VInt 3)])],
+        true, true,
+        VDict [(VStr "value.in_range", VDict [(VStr "lower", VDict [(VStr "a", VDict [(VStr "path", VInt 1)])]); (VStr "upper", VInt 3)])]) /\
+  (* the argument itself, when it is a mapping with a "path" key, is escaped at its top level only *)
+  roundtrip (L SValue (Q_in_range (VDict [(VStr "path", VList [VDict [(VStr "path", VInt 1)]])]) (VInt 3))) =
+    Ok (VDict [(VStr "value.in_range", VDict [(VStr "lower", VDict [(VStr "\path", VList [VDict [(VStr "path", VInt 1)]])]); (VStr "upper", VInt 3)])],
+        true, true,
+        VDict [(VStr "value.in_range", VDict [(VStr "lower", VDict [(VStr "\path", VList [VDict [(VStr "path", VInt 1)]])]); (VStr "upper", VInt 3)])]) /\
+  sub3 (VList [VDict [(VStr "path", VInt 1)]]) = true /\
+  sub3 (VDict [(VStr "a", VDict [(VStr "path", VInt 1)])]) = true /\
+  leaf_in_c11e SValue (Q_in_range (VList [VDict [(VStr "path", VInt 1)]]) (VInt 3)) = true /\
+  leaf_in_c11e SValue (Q_keys_contain_any_of [VList [VDict [(VStr "path", VInt 1)]]]) = true /\
+  leaf_in_c11e SValue (Q_in_range (VDict [(VStr "a", VDict [(VStr "path", VInt 1)])]) (VInt 3)) = true /\
+  leaf_in_c11e SValue (Q_in_range (VDict [(VStr "path", VList [VDict [(VStr "path", VInt 1)]])]) (VInt 3)) = true.
+Proof. vm_compute. repeat split. Qed.
+
+(* (a2) D40 for the argument itself of such a callable: hence `okkeys` in sub3.  A mapping argument whose only
+   key reads `path[.m[.m]]` NOT in lower case is not escaped but read as a path spec (here: rebuilt as a data-path
+   argument).  Python: Value.in_range(lower={"PATH": []}, upper=3). *)
+Example C11E_counterexample_upper_path_sub :
+  let q := Q_in_range (VDict [(VStr "PATH", VList [])]) (VInt 3) in
+  let j := VDict [(VStr "value.in_range", VDict [(VStr "lower", VDict [(VStr "PATH", VList [])]); (VStr "upper", VInt 3)])] in
+  cond1_to_json T X (cond_map pyval arg1 ALit (L SValue q)) = Ok j /\
+  (let* r := cond1_from_spec T X j in Ok (kwargs_of (snd r))) = Ok [("lower", APath 0 {| pt_parts := []; pt_mods := []; pt_src := None |}); ("upper", ALit (VInt 3))] /\
+  sub3 (VDict [(VStr "PATH", VList [])]) = false /\ leaf_in_c11e SValue q = false.
 Proof. vm_compute. repeat split. Qed.
 
 (* (b) known finding D40 at item level: a mapping whose only key reads `path[.m[.m]]` NOT in lower case is not
@@ -1108,11 +1112,12 @@ Proof. vm_compute. repeat split. Qed.
    - one-parameter callables (plain3): a mapping argument some key of which contains "path" (any values; keys
      already containing "\path" included); mapping items of a list argument / mapping values of a mapping
      argument that are escaped (item3);
-   - callables with several named parameters and *args callables (sub3): an escaped mapping as argument;
+   - callables with several named parameters and *args callables (sub3 = item3, WIDENED after the repair of D49):
+     an escaped mapping as argument; lists / mappings with ANY inner mappings (they are written and read raw);
    - items_contain( **items ): item names containing "path" (any names, any values), or otherwise item values
      at item level (item3).
    The serialiser lemmas (val_to_json_wr, args_json_q3, leaf_to_json3) hold for ALL JSON arguments.
-   Still excluded: (a) inner mappings with "path" keys under several-parameter / *args callables (finding above);
+   Still excluded:
    (b) single-key `PATH[.m[.m]]` mappings in a not lower-case spelling (D40); tuples and non-JSON values; trees
    deeper than 40; data-path arguments; under a type conversion the fragment is that of C11. *)
 
